@@ -19,7 +19,9 @@ Record xinfo := mkX {
   x_op : Z;      (* identity of td->op *)
   x_el : Z;      (* identity of td->elements *)
   x_sp : Z;      (* identity of td->specifics *)
-  x_ec : Z       (* td->elements_count *)
+  x_ec : Z;      (* td->elements_count *)
+  x_rep : Z      (* what the specifics say about the C representation, for the kinds whose specifics are not dumped
+                    structurally: NativeReal float_size; OCTET STRING family 1 + subvariant + 8*struct_size; else 0 *)
 }.
 
 Record hop := mkH {
@@ -67,12 +69,16 @@ Definition eqb_of {A} (d : forall a b : A, {a = b} + {a <> b}) (a b : A) : bool 
 
 (* ---- the hop clauses ---- *)
 
-(* INTEGER and REAL: a constraint added by a reference may select another C representation (unsigned long, float),
-   i.e. specifics of its own; every other kind keeps the target's record whatever the constraint *)
+(* INTEGER and REAL references may own a specifics record (unsigned long after a constraint; float: every reference
+   to a float-sized REAL gets one); every other kind keeps the target's record itself *)
 Definition numeric_kind (k : kind) : bool :=
   match k with KNativeInt | KInt | KReal => true | _ => false end.
 
+(* ... whose CONTENT still equals the target's unless the hop adds a constraint *)
 Definition rigid (h : hop) (target_kind : kind) : bool := negb (h_constr h && numeric_kind target_kind).
+
+(* field_width of INTEGER specifics; 0 = native long, also without specifics *)
+Definition int_width (s : spec) : Z := match s with SInt _ _ _ _ w _ => w | _ => 0 end.
 
 (* X.680 30-31 on tag vectors: an untagged hop changes nothing; a tag t is put in front of the target's full chain;
    among the EFFECTIVE tags an IMPLICIT t replaces the target's outermost one (tl [] = []: over an untagged CHOICE or
@@ -83,10 +89,14 @@ Definition hop_tags (h : hop) (target_tags : list Z) : list Z :=
 Definition hop_all (h : hop) (target_all : list Z) : list Z :=
   if h_tag h <? 0 then target_all else h_tag h :: target_all.
 
+(* the C type of the alias is a typedef of the target's: op table, member table and what the specifics say about the
+   representation are the target's at EVERY hop *)
 Definition hop_same (h : hop) (a t : descr) (xa xt : xinfo) : bool :=      (* clause 8 *)
   eqb_of kind_eq_dec (d_kind a) (d_kind t) && (x_op xa =? x_op xt)
   && (x_el xa =? x_el xt) && (x_ec xa =? x_ec xt) && eqb_of (list_eq_dec member_eq_dec) (d_elems a) (d_elems t)
-  && (negb (rigid h (d_kind t)) || ((x_sp xa =? x_sp xt) && eqb_of spec_eq_dec (d_spec a) (d_spec t))).
+  && (x_rep xa =? x_rep xt) && (int_width (d_spec a) =? int_width (d_spec t))
+  && (numeric_kind (d_kind t) || (x_sp xa =? x_sp xt))
+  && (negb (rigid h (d_kind t)) || eqb_of spec_eq_dec (d_spec a) (d_spec t)).
 
 Definition hop_tagged (h : hop) (a t : descr) : bool :=                     (* clause 9 *)
   list_eqb (d_tags a) (hop_tags h (d_tags t)) && list_eqb (d_all a) (hop_all h (d_all t)).
